@@ -2,6 +2,37 @@ import LenaModel.Model.C08
 /-! # C08 — helper lemmas: dictionary primitives, well-formedness, the path algebra of
 `ucSet` / `delPath` / `updRec`, splitting of dotted strings -/
 namespace Lena.C08
+/-! ## decidable equality (for the `example`s; `deriving` does not handle the nested type) -/
+mutual
+def Val.beq : Val → Val → Bool
+  | .leaf a, .leaf b => decide (a = b)
+  | .dict a, .dict b => beqEntries a b
+  | _, _ => false
+def beqEntries : Entries → Entries → Bool
+  | [], [] => true
+  | (k, v) :: r, (k', v') :: r' => decide (k = k') && Val.beq v v' && beqEntries r r'
+  | _, _ => false
+end
+
+mutual
+theorem Val.beq_iff : ∀ a b : Val, Val.beq a b = true ↔ a = b
+  | .leaf a, .leaf b => by simp [Val.beq]
+  | .dict a, .dict b => by simp [Val.beq, beqEntries_iff a b]
+  | .leaf _, .dict _ => by simp [Val.beq]
+  | .dict _, .leaf _ => by simp [Val.beq]
+theorem beqEntries_iff : ∀ a b : Entries, beqEntries a b = true ↔ a = b
+  | [], [] => by simp [beqEntries]
+  | (k, v) :: r, (k', v') :: r' => by simp [beqEntries, Val.beq_iff v v', beqEntries_iff r r', and_assoc]
+  | [], _ :: _ => by simp [beqEntries]
+  | _ :: _, [] => by simp [beqEntries]
+end
+
+instance : DecidableEq Val := fun a b =>
+  if h : Val.beq a b = true then isTrue ((Val.beq_iff a b).1 h)
+  else isFalse (fun e => h ((Val.beq_iff a b).2 e))
+
+deriving instance DecidableEq for Except
+
 /-! ## dictionary primitives -/
 
 @[simp] theorem lookup_nil (k : String) : lookup [] k = none := rfl
